@@ -178,15 +178,11 @@ DocS2(model) == CASE model = "lennard_jones"     -> DocS2LJ
 (***************************************************************************)
 (* The derivatives of the documented energies (what C12 states)            *)
 (***************************************************************************)
-\* (zero-arity constant tables: TLC evaluates them once)
-S1Tab == TLCEval([m \in Models |-> D(Energy(m))])
-S2Tab == TLCEval([m \in Models |-> D(D(Energy(m)))])
-S1(model) == S1Tab[model]
-S2(model) == S2Tab[model]
+S1(model) == D(Energy(model))
+S2(model) == D(D(Energy(model)))
 \* first derivative at the cut-off (Hertz: the cut-off is sigma)
-S1AtCutTab == TLCEval([m \in Models |-> IF m = "harmonic_hertz" THEN Canon(AtSigma(S1(m)))
-                                ELSE Canon(AtRc(S1(m)))])
-S1AtCut(model) == S1AtCutTab[model]
+S1AtCut(model) == IF model = "harmonic_hertz" THEN Canon(AtSigma(S1(model)))
+                  ELSE Canon(AtRc(S1(model)))
 \* the cut-off term of the triple
 S1c(model, shift) == IF shift THEN S1AtCut(model) ELSE PZero
 
@@ -237,10 +233,18 @@ MonoT(m, sym) ==
        \o PowF(UTerm, m.u, sym) \o PowF(Var("rc"), m.rc, sym) )
 ToTerm(P, sym) == Add([i \in 1..Len(P) |-> MonoT(P[i], sym)])
 
-S1TermTab  == TLCEval([m \in Models |-> ToTerm(S1(m), SymName(m))])
-S2TermTab  == TLCEval([m \in Models |-> ToTerm(S2(m), SymName(m))])
-S1cTermTab == TLCEval([m \in Models |-> TLCEval([sh \in BOOLEAN |-> ToTerm(S1c(m, sh), SymName(m))])])
-S1Term(model)         == S1TermTab[model]
-S2Term(model)         == S2TermTab[model]
-S1cTerm(model, shift) == S1cTermTab[model][shift]
+S1Term(model)         == ToTerm(S1(model), SymName(model))
+S2Term(model)         == ToTerm(S2(model), SymName(model))
+S1cTerm(model, shift) == ToTerm(S1c(model, shift), SymName(model))
+
+\* Everything a model needs per potential, as one strict value.  TLC does not reliably
+\* cache constant operators (inside LET bodies they are re-evaluated at every use), so the
+\* MC modules evaluate this table ONCE in Init into a state variable.
+PotRec(m) ==
+  [ s1t   |-> S1Term(m),
+    s2t   |-> S2Term(m),
+    s1ct  |-> TLCEval([sh \in BOOLEAN |-> S1cTerm(m, sh)]),
+    nmono |-> TLCEval([sh \in BOOLEAN |-> <<Len(S1(m)), Len(S1c(m, sh)), Len(S2(m))>>]),
+    sym   |-> SymName(m) ]
+PotTable == TLCEval([m \in Models |-> PotRec(m)])
 =============================================================================
